@@ -535,6 +535,9 @@ __strfd_card(
 			/* it's just bollocks */
 			return 0U;
 		}
+		if (UNLIKELY(bsz < (size_t)prec)) {
+			break;
+		}
 		res = ui9999topstr(buf, prec, y, 4U, padchar(s));
 		break;
 	}
@@ -642,12 +645,16 @@ __strfd_card(
 		}
 		break;
 	case DT_SPFL_S_QTR:
-		buf[res++] = 'Q';
-		buf[res++] = (char)(dt_get_quarter(that) + '0');
+		if (LIKELY(bsz >= 2U)) {
+			buf[res++] = 'Q';
+			buf[res++] = (char)(dt_get_quarter(that) + '0');
+		}
 		break;
 	case DT_SPFL_N_QTR:
-		buf[res++] = '0';
-		buf[res++] = (char)(dt_get_quarter(that) + '0');
+		if (LIKELY(bsz >= 2U)) {
+			buf[res++] = '0';
+			buf[res++] = (char)(dt_get_quarter(that) + '0');
+		}
 		break;
 
 	case DT_SPFL_LIT_PERCENT:
@@ -680,7 +687,7 @@ __strfd_card(
 					buf, bsz, yd,
 					3 - (s.pad == DT_SPPAD_OMIT) << 1U,
 					padchar(s));
-			} else {
+			} else if (bsz >= 3U) {
 				buf[res++] = '0';
 				buf[res++] = '0';
 				buf[res++] = '0';
